@@ -2,6 +2,7 @@ package harness
 
 import (
 	"fmt"
+	"strings"
 	"testing"
 )
 
@@ -13,6 +14,7 @@ func init() {
 // graceful close is under way (state "closing"), and to requests left pending
 // when a session ends (C02, C03, C11, C12).
 func famSesLinger(t *testing.T, r *Rec) {
+	shutdownTwice(t, r)
 	const I, T = 400, 200
 	type variant struct {
 		transport string
@@ -211,5 +213,37 @@ func famSesLinger(t *testing.T, r *Rec) {
 				r.Violate("C12", "C12/pending-poll-not-released/"+how, fmt.Sprintf("the session ended (%s) but request(s) %s were never answered", how, last.pend), g.lines)
 			}
 		}
+	}
+}
+
+
+// shutdownTwice: a server that was closed still accepts handshakes; closing it again closes the sessions opened since,
+// each with one close event, releases their pending polls and empties the table (C12: "closing the server closes every
+// session" holds for every Close, not for the first one only).
+func shutdownTwice(t *testing.T, r *Rec) {
+	lines := []string{"ses cfg 25000 20000 1000 100000 default 1 0 - 0 -", "ses hs polling 4 0 -", "ses hs websocket 4 0 -", "ses shutdown",
+		"ses hs polling 4 0 -", "ses poll s2", "ses hs websocket 4 0 -", "ses shutdown", "ses obs"}
+	outs := sesRun(t, lines)
+	r.scenarios++
+	r.Cover("linger/shutdown-twice")
+	closes := map[string][]string{}
+	for i, l := range lines {
+		r.Op(l, outs[i])
+		if i < 7 || outs[i] == "-" || outs[i] == "ok" {
+			continue
+		}
+		for _, e := range parseObs(outs[i]).events {
+			if e.name == "close" && strings.HasPrefix(e.who, "s") && e.who != "srv" {
+				closes[e.who] = append(closes[e.who], e.args[0])
+			}
+		}
+	}
+	for _, who := range []string{"s2", "s3"} {
+		if got := strings.Join(closes[who], ","); got != "forced_close" {
+			r.Violate("C12", "C12/second-shutdown/close-events/"+who, "the second Server.Close left "+who+" (opened after the first) with close events ["+got+"], want exactly one, forced close", lines)
+		}
+	}
+	if last := parseObs(outs[len(outs)-1]); last.pend != "-" {
+		r.Violate("C12", "C12/second-shutdown/pending-poll-not-released", "after the second Server.Close a poll is still pending: "+last.pend, lines)
 	}
 }
